@@ -86,8 +86,8 @@ def run(tier, seed):
     degrees = list(range(1, 21))
     reps = 12 if tier == "quick" else 80
     for n in degrees:
-        for _ in range(reps):
-            ph, style = P.corner_phases(rng, n)
+        for rep in range(reps + 3):
+            ph, style = P.corner_phases(rng, n, style=(None if rep < reps else ["nearly-real", "chebyshev", "mirror"][rep - reps]))
             Pc = P.corner_poly(ph)
             tol = float(rng.choice([1e-6, 1e-6, 1e-4, 1e-9, 1e-12]))
             r = rng.random()
@@ -95,7 +95,12 @@ def run(tier, seed):
                 kind = "achievable"
             elif r < 0.75:
                 kind = "perturbed"
-                Pc = Pc + (rng.normal(size=len(Pc)) + 1j * rng.normal(size=len(Pc))) * float(rng.choice([1e-9, 1e-6, 1e-3])) * (np.abs(Pc) > 0)
+                if rng.random() < 0.5:
+                    Pc = Pc + (rng.normal(size=len(Pc)) + 1j * rng.normal(size=len(Pc))) * float(rng.choice([1e-9, 1e-6, 1e-3])) * (np.abs(Pc) > 0)
+                else:       # relative perturbation (large coefficients move more): one coefficient or all of them
+                    rel = float(rng.choice([1e-7, 1e-6, 8e-6, 1e-4]))
+                    fac = 1 + rel * rng.normal(size=len(Pc)) * (1 if rng.random() < 0.5 else (np.arange(len(Pc)) == int(rng.integers(0, len(Pc)))))
+                    Pc = Pc * fac
             elif r < 0.9:
                 kind = "scaled-past-1"
                 Pc = Pc * float(rng.uniform(1.05, 2.0))
